@@ -68,11 +68,19 @@ HOLDER_FUNCS = {'partial', 'diags', 'spdiags', 'dia_matrix', 'csr_matrix', 'csc_
                 'csc_array', 'coo_matrix', 'identity', 'eye', 'kron', 'block_diag', 'interp1d', 'splrep', 'splu',
                 'factorized', 'lru_cache', 'wraps', 'product', 'chain', 'zip_longest', 'dia_object', 'csr_object',
                 'meshgrid', 'nditer', 'ndenumerate', 'broadcast', 'vectorize', 'frompyfunc', 'fit', 'groupby'}
+FIRST_ARG_VIEW_FUNCS = {'reshape', 'transpose', 'swapaxes', 'moveaxis', 'rollaxis', 'expand_dims', 'broadcast_to',
+                        'squeeze', 'diagonal', 'diag', 'split', 'array_split', 'hsplit', 'vsplit', 'dsplit', 'flip',
+                        'fliplr', 'flipud', 'rot90', 'require', 'asarray', 'asanyarray', 'ascontiguousarray',
+                        'asfortranarray', 'asarray_chkfinite', 'ravel', 'tril', 'triu', 'real', 'imag',
+                        'permute_dims', 'matrix_transpose', 'trim_zeros'}
 SETUPS_W = {'_setup_whittaker': 3, '_setup_polynomial': None, '_setup_spline': None, '_setup_classification': 2}
 
 
 BASES = {}
 WORLD_WAIVED = []
+WORLD_INFO = {}
+LAST_WORLD = [None]
+ONE_D_IMPORTS_TWO_D = []
 
 
 # Hand-reviewed write statements the analysis cannot resolve (path-/type-insensitive); matched by function and
@@ -129,6 +137,10 @@ class Fn:
         self.ir = None
         self.ir_ret = None
         self.callable_params = set()
+        rets = [n for n in ast.walk(node) if isinstance(n, ast.Return) and n.value is not None]
+        self.ret2 = bool(rets) and all(isinstance(r.value, ast.Tuple) and len(r.value.elts) == 2 for r in rets)
+        self.P1 = set()
+        self.R1 = set()      # registered bodies: sources the returned params object may be
 
 
 def _is_registered(node):
@@ -140,6 +152,7 @@ def _is_registered(node):
 
 
 def load(repo):
+    del ONE_D_IMPORTS_TWO_D[:]
     fns, imports = [], {}
     root = os.path.join(repo, PKG)
     files = sorted(glob.glob(os.path.join(root, '*.py')) + glob.glob(os.path.join(root, 'two_d', '*.py')))
@@ -164,6 +177,12 @@ def load(repo):
                     else:
                         ext.add(nm)
         imports[mod] = (ext, rep, mods, alias)
+        if not mod.startswith('two_d'):
+            for node in ast.walk(tree):
+                if isinstance(node, ast.ImportFrom) and 'two_d' in (node.module or ''):
+                    ONE_D_IMPORTS_TWO_D.append(mod)
+                if isinstance(node, ast.ImportFrom) and node.level > 0 and any(al.name == 'two_d' for al in node.names):
+                    ONE_D_IMPORTS_TWO_D.append(mod)
         for node in tree.body:
             if isinstance(node, ast.FunctionDef):
                 fns.append(Fn(mod, None, node, False))
@@ -187,6 +206,7 @@ class Tr:
         for node in ast.walk(fn.node):
             if isinstance(node, ast.Name) and isinstance(node.ctx, (ast.Store, ast.Del)):
                 self.locals.add(node.id)
+        self.pos_info = {}
         self.scalars = scalar_names(fn)
         self.arrays = array_names(fn, self)
 
@@ -230,6 +250,10 @@ class Tr:
             if q in self.arrays or q in self.scalars:
                 continue
             out.append(('bind', cont(q), ('alias', sorted({cont(q)} | add))))
+            if q.startswith('self.') and q != 'self.*':
+                key = cont(q)[5:]
+                if key in self.world['fresh_attrs']:
+                    out.append(('assertfresh', cont(q), 0, key))
 
     @staticmethod
     def join(*vals):
@@ -248,6 +272,9 @@ class Tr:
     def ev(self, e, out, raw=False):
         """(S, C): names the value may BE (or be a view of), names whose objects it may CONTAIN."""
         v = self.ev0(e, out)
+        if len(v) == 3 and not raw:
+            # (baseline, params) of a registered method used as a plain value
+            return set(), v[1][0] | v[1][1] | v[2][0] | v[2][1]
         if len(v) == 5 and not raw:
             # a setup result used as a plain value: the tuple holds y, the weights, ...
             sp = v[3]
@@ -286,6 +313,8 @@ class Tr:
         if isinstance(e, ast.Subscript):
             self.ev_index(e.slice, out)
             v = self.ev(e.value, out, raw=True)
+            if len(v) == 3:
+                v = (set(), v[1][0] | v[1][1] | v[2][0] | v[2][1])
             if len(v) == 5:
                 if isinstance(e.slice, ast.Constant) and e.slice.value == 0:
                     return v[2]
@@ -476,6 +505,11 @@ class Tr:
                     same = [c for c in cands if c.mod.startswith('two_d') == two]
                 if same:
                     cands = same
+            if cands and not is_self and not self.fn.mod.startswith('two_d'):
+                # the 1-D modules never import the 2-D classes (checked in load()): their objects are 1-D ones
+                one = [c for c in cands if not c.mod.startswith('two_d')]
+                if one and not self.world['one_d_imports_two_d']:
+                    cands = one
             if cands and attr not in ('copy',):
                 if all(c.registered for c in cands):
                     return everything | recv[0] | recv[1], everything | recv[0] | recv[1]
@@ -537,6 +571,26 @@ class Tr:
     def call_local(self, nm, e, argv, kwv, starkw, allv, out):
         everything = allv[0] | allv[1] | {nm, cont(nm)}
         kind = self.cvars.get(nm)
+        if self.fn.name == '_register' and nm == 'func' and len(argv) >= 2 and self.world.get('reg_ready'):
+            # the decorated function: by construction one of the registered method bodies (that is how
+            # `registered` is defined).  It does not write its arguments (C13_writes_safe for those bodies); the
+            # `params` object it returns is described by the re-checked summary R1 of every body.
+            two = self.fn.mod.startswith('two_d')
+            regs = [f for f in self.world['registered'] if f.mod.startswith('two_d') == two]
+            passed = self.join(*(argv + list(kwv.values()) + starkw))
+            allp = passed[0] | passed[1]
+            selfv = argv[0][0] | argv[0][1]
+            s1 = set()
+            for f in regs:
+                for src in f.R1:
+                    base = src[:-2] if src.endswith('.*') else src
+                    if base.startswith('self'):
+                        s1 |= selfv
+                    elif f.params[1:2] == [base]:
+                        s1 |= (argv[1][1] if src.endswith('.*') else argv[1][0])
+                    else:
+                        s1 |= allp
+            return ('pos', (set(allp), set(allp)), (s1, set(allp)))
         if kind is None and nm in self.fn.all_params and not self.fn.registered:
             # a callable parameter of a helper: checked at every call site of the helper (call_repo)
             self.fn.callable_params.add(nm)
@@ -574,6 +628,9 @@ class Tr:
                 self.write_through(out, argv[0][0], line)
                 return everything, everything
             return set(), set()
+        if nm in FIRST_ARG_VIEW_FUNCS and argv and not any(isinstance(a, ast.Starred) for a in e.args):
+            # the other arguments are shapes / axes / dtypes
+            return argv[0][0] | argv[0][1], set(argv[0][1])
         if nm in VIEW_FUNCS:
             return everything, everything
         if 'out' in kwv:
@@ -609,7 +666,9 @@ class Tr:
             return self.elem(recv)
         if attr in VIEW_METHODS or attr in ('T', 'real', 'imag', 'flat'):
             S, C = self.elem(recv)
-            return S | everything, C | everything
+            if attr in ('get', 'pop', 'setdefault'):
+                return S | everything, C | everything      # the default may be what is returned
+            return S, C                                    # the arguments are shapes / axes / keys
         if 'out' in kwv:
             return set(kwv['out'][0]), set(kwv['out'][1])
         if attr in ('dot', 'sum', 'mean', 'std', 'var', 'max', 'min', 'argmax', 'argmin', 'argsort', 'any', 'all',
@@ -723,6 +782,15 @@ class Tr:
                     C |= m[base][1] if src.endswith('.*') else m[base][0]
             if callee.is_prop:
                 pass
+        if callees and all(c.ret2 and not c.registered for c in callees):
+            s1 = set()
+            for callee in callees:
+                m = self.map_args(callee, recv, e, argv, kwv, starkw)
+                for src in callee.P1:
+                    base = src[:-2] if src.endswith('.*') else src
+                    if base in m:
+                        s1 |= m[base][1] if src.endswith('.*') else m[base][0]
+            self.pos_info[id(e)] = s1
         return S, C | S
 
     def call_setup(self, attr, e, argv, kwv, out):
@@ -773,6 +841,13 @@ class Tr:
     def assign(self, target, val, out, line, value_node=None):
         if isinstance(val, tuple) and len(val) == 5 and val[0] == 'setup':
             return self.assign_setup(target, val, out, line)
+        if isinstance(val, tuple) and len(val) == 3 and val[0] == 'pos':
+            if isinstance(target, (ast.Tuple, ast.List)) and len(target.elts) == 2 and \
+                    all(isinstance(t, ast.Name) for t in target.elts):
+                self.bind_val(out, target.elts[0].id, val[1])
+                self.bind_val(out, target.elts[1].id, val[2])
+                return
+            val = (set(), val[1][0] | val[1][1] | val[2][0] | val[2][1])
         if isinstance(target, ast.Name):
             self.bind_val(out, target.id, val)
             self.note_callable(target.id, value_node)
@@ -784,15 +859,34 @@ class Tr:
                     tmp.append(self.ev(vn, out))
                 for t, v, vn in zip(target.elts, tmp, value_node.elts):
                     self.assign(t, v, out, line, vn)
+            elif len(target.elts) == 2 and all(isinstance(t, ast.Name) for t in target.elts) and \
+                    isinstance(value_node, ast.Call) and id(value_node) in self.pos_info:
+                # `a, b = helper(...)` where every return of the helper is a pair: b is described by its summary
+                self.assign(target.elts[0], self.elem(val), out, line)
+                self.bind_val(out, target.elts[1].id, (set(self.pos_info[id(value_node)]), self.elem(val)[1]))
             else:
                 for t in target.elts:
                     self.assign(t.value if isinstance(t, ast.Starred) else t, self.elem(val), out, line)
         elif isinstance(target, ast.Attribute):
             if isinstance(target.value, ast.Name) and target.value.id == 'self' and 'self' in self.locals:
                 self.bind_val(out, 'self.' + target.attr, val)
+                if target.attr in self.world['fresh_attrs']:
+                    # claimed: this attribute never holds a caller-owned buffer (checked like a write site)
+                    out.append(('assertfresh', 'self.' + target.attr, line, target.attr))
+                if target.attr + '.*' in self.world['fresh_attrs']:
+                    # claimed: nor does the object stored there hold one
+                    out.append(('assertfresh', 'self.' + target.attr + '.*', line, target.attr + '.*'))
             else:
                 tv = self.ev(target.value, out)
                 self.store_into(out, tv, val)
+                if target.attr in self.world['fresh_attrs'] and val[0]:
+                    t = self.fresh_tmp()
+                    self.bind(out, t, val[0])
+                    out.append(('assertfresh', t, line, target.attr))
+                if target.attr + '.*' in self.world['fresh_attrs'] and val[1]:
+                    t = self.fresh_tmp()
+                    self.bind(out, t, val[1])
+                    out.append(('assertfresh', t, line, target.attr + '.*'))
         elif isinstance(target, ast.Subscript):
             self.ev_index(target.slice, out)
             tv = self.ev(target.value, out)
@@ -945,7 +1039,17 @@ class Tr:
         if isinstance(st, ast.Return):
             if st.value is not None:
                 v = self.ev(st.value, out)
-                if self.want_ret:
+                if self.want_ret == 'pos':
+                    # a registered body: which objects the returned `params` (second element) may be
+                    if isinstance(st.value, ast.Tuple) and len(st.value.elts) == 2:
+                        pv = self.ev(st.value.elts[1], [])
+                        src = pv[0]
+                    else:
+                        src = v[0] | v[1]
+                    t = self.fresh_tmp()
+                    self.bind(out, t, src)
+                    out.append(('retwrite', t, line, 'R1'))
+                elif self.want_ret:
                     # the returned object (and, separately, what it holds)
                     t = self.fresh_tmp()
                     self.bind(out, t, v[0])
@@ -953,6 +1057,13 @@ class Tr:
                     t2 = self.fresh_tmp()
                     self.bind(out, t2, v[1])
                     out.append(('retwrite', t2, line, 'AC'))
+                    if self.fn.ret2:
+                        # every return is `a, b`: which objects the second element may be
+                        pv = self.ev(st.value.elts[1], []) if isinstance(st.value, ast.Tuple) and len(st.value.elts) == 2 \
+                            else (v[0] | v[1], set())
+                        t3 = self.fresh_tmp()
+                        self.bind(out, t3, pv[0])
+                        out.append(('retwrite', t3, line, 'P1'))
             return
         if isinstance(st, (ast.Pass, ast.Import, ast.ImportFrom)):
             return
@@ -1272,7 +1383,11 @@ def run_ir(ir, env, acc):
             acc['W'].add((s, ir[3]))
         return env, None, None
     if k == 'retwrite':
-        acc[ir[3]] |= env.get(ir[1], frozenset())
+        acc.setdefault(ir[3], set()).update(env.get(ir[1], frozenset()))
+        return env, None, None
+    if k == 'assertfresh':
+        if env.get(ir[1]):
+            acc.setdefault('AF', set()).add(ir[3])
         return env, None, None
     if k == 'if':
         n1, b1, c1 = run_ir(ir[1], env, acc)
@@ -1281,7 +1396,7 @@ def run_ir(ir, env, acc):
     if k == 'loop':
         inv = env
         for _ in range(50):
-            n, b, c = run_ir(ir[1], inv, {'W': set(), 'A': set(), 'AC': set()})
+            n, b, c = run_ir(ir[1], inv, {'W': set(), 'A': set(), 'AC': set(), 'AF': acc.setdefault('AF', set())})
             new = join_env(inv, join_env(n, c))
             if new == inv:
                 break
@@ -1346,6 +1461,8 @@ def coq_stmt(ir, mode):
         return f'SWrite {q(ir[1])} {ir[2]}' if mode == 'w' else 'SSkip'
     if k == 'retwrite':
         return f'SWrite {q(ir[1])} {ir[2]}' if mode == ir[3] else 'SSkip'
+    if k == 'assertfresh':
+        return f'SWrite {q(ir[1])} {ir[2]}' if mode == 'w' else 'SSkip'
     if k == 'if':
         a, b = coq_stmt(ir[1], mode), coq_stmt(ir[2], mode)
         if a == 'SSkip' and b == 'SSkip':
@@ -1390,36 +1507,102 @@ def analyse_all(repo):
     if len(registered) < 90:
         raise TranslateError(f'only {len(registered)} registered method bodies found (expected 95)')
     helpers = [fn for fn in fns if not fn.registered]
-    # fixpoint over the helper summaries
-    for rnd in range(12):
+    world['registered'] = registered
+    world['one_d_imports_two_d'] = [m for m in ONE_D_IMPORTS_TWO_D if m not in ('api',)]
+    # candidate persistent attributes: every attribute name that is ever assigned (obj.attr = ...)
+    cand = set()
+    for fn in fns:
+        for node in ast.walk(fn.node):
+            if isinstance(node, ast.Attribute) and isinstance(node.ctx, ast.Store):
+                cand.add(node.attr)
+    world['fresh_attrs'] = set(cand) | {a + '.*' for a in cand}
+    # greatest fixpoint: drop an attribute as soon as one of its bindings may hold a caller-owned buffer
+    for outer in range(40):
+        failed = analyse_round(world, registered, helpers)
+        if not failed:
+            break
+        world['fresh_attrs'] -= failed
+    else:
+        raise TranslateError('persistent-attribute classification did not stabilise')
+    world['all_attrs'] = cand
+    LAST_WORLD[0] = world
+    del WORLD_WAIVED[:]
+    WORLD_WAIVED.extend(sorted(set(world['waived'])))
+    WORLD_INFO.clear()
+    WORLD_INFO.update({'fresh_attrs': sorted(world['fresh_attrs']), 'caller_attrs': sorted((cand | {a + '.*' for a in cand}) - world['fresh_attrs'])})
+    return fns, registered, helpers
+
+
+def self_attrs(fn):
+    return sorted({n.attr for n in ast.walk(fn.node) if isinstance(n, ast.Attribute)
+                   and isinstance(n.value, ast.Name) and n.value.id == 'self'})
+
+
+def entry_env(fn, world):
+    """what every name may denote when the function is entered: parameters are their own sources (registered
+    bodies: the caller's objects); persistent attributes not proven fresh, and whatever any attribute holds, are
+    'self.*' (possibly caller-owned: stored by an earlier call)"""
+    env = {}
+    plain = doc_plain(fn) if fn.registered else set()
+    for p in fn.all_params:
+        if p == 'self' and fn.registered:
+            continue
+        env[p] = frozenset([p])
+        if p not in plain:
+            env[cont(p)] = frozenset([cont(p)])
+    env['self.*'] = frozenset(['self.*'])
+    for a in self_attrs(fn):
+        if a not in world['fresh_attrs']:
+            env['self.' + a] = frozenset(['self.*'])
+        if a + '.*' not in world['fresh_attrs']:
+            env['self.' + a + '.*'] = frozenset(['self.*'])
+    return env
+
+
+def analyse_round(world, registered, helpers):
+    failed = set()
+    world['waived'] = []
+    world['reg_ready'] = False
+    for fn in helpers:
+        fn.W, fn.A, fn.AC, fn.P1 = set(), set(), set(), set()
+        fn.callable_params = set()
+
+    def helper_pass(fns):
         changed = False
-        for fn in helpers:
+        for fn in fns:
             tr = Tr(fn, world, True)
             ir = tr.block(_body(fn.node))
-            env = {}
-            for p in fn.all_params:
-                env[p] = frozenset([p])
-                env[cont(p)] = frozenset([cont(p)])
-            acc = {'W': set(), 'A': set(), 'AC': set()}
-            run_ir(ir, env, acc)
+            acc = {'W': set(), 'A': set(), 'AC': set(), 'AF': set()}
+            run_ir(ir, entry_env(fn, world), acc)
             W = {(s, c) for s, c in acc['W']}
             # an unconditional write subsumes conditional ones
             W = {(s, c) for s, c in W if c is None or (s, None) not in W}
-            if W != fn.W or acc['A'] != fn.A or acc['AC'] != fn.AC:
-                fn.W, fn.A, fn.AC = W, set(acc['A']), set(acc['AC'])
+            if W != fn.W or acc['A'] != fn.A or acc['AC'] != fn.AC or acc.get('P1', set()) != fn.P1:
+                fn.W, fn.A, fn.AC, fn.P1 = W, set(acc['A']), set(acc['AC']), set(acc.get('P1', set()))
                 changed = True
             fn.ir = ir
-        if not changed:
+            fn.AF = set(acc['AF'])
+        return changed
+    # fixpoint over the helper summaries
+    for rnd in range(14):
+        if not helper_pass(helpers):
             break
     else:
         raise TranslateError('helper summaries did not stabilise')
-    world['waived'] = []
     for fn in registered:
-        tr = Tr(fn, world, False)
+        tr = Tr(fn, world, 'pos')
         fn.ir = tr.block(_body(fn.node))
-    del WORLD_WAIVED[:]
-    WORLD_WAIVED.extend(sorted(set(world['waived'])))
-    return fns, registered, helpers
+        acc = {'W': set(), 'A': set(), 'AC': set(), 'AF': set(), 'R1': set()}
+        run_ir(fn.ir, entry_env(fn, world), acc)
+        fn.R1 = set(acc['R1'])
+        fn.AF = set(acc['AF'])
+        fn.Wreg = set(acc['W'])
+    # the decorators call the registered bodies: translate them again now that the R1 summaries exist
+    world['reg_ready'] = True
+    helper_pass([fn for fn in helpers if fn.name == '_register'])
+    for fn in registered + helpers:
+        failed |= fn.AF
+    return failed
 
 
 def _body(node):
@@ -1432,6 +1615,7 @@ def _body(node):
 
 def gen(repo):
     fns, registered, helpers = analyse_all(repo)
+    world = LAST_WORLD[0]
     lines = ['(* GENERATED by tools/gen_writes.py from the current source -- do not edit. *)',
              'From Coq Require Import List String.',
              'From PB Require Import C13.Model C13.Writes.',
@@ -1442,56 +1626,54 @@ def gen(repo):
     nwrites = 0
 
     def emit(ident, label, tainted, code):
+        if not tainted and 'SUnknown' not in code and 'RUnknown' not in code:
+            return      # nothing can be tainted: trivially accepted
         lines.append(f'Definition {ident} : body := {{| b_name := {q(label)}; b_tainted := ['
                      + '; '.join(q(t) for t in tainted) + f']; b_code := {code} |}}.')
         names.append(ident)
 
-    # registered method bodies: every parameter (and what it holds) is the caller's, and so are self.x / self.z
+    def tainted_of(fn, claimed):
+        env = entry_env(fn, world)
+        return sorted(n for n, src in env.items() if src and not src <= claimed)
+
+    # registered method bodies: every parameter (and what it holds) is the caller's; so is every persistent
+    # attribute of the fitter that is not proven fresh (self.x, self.z, ...) and whatever any attribute holds
     known_bad = []
     for i, fn in enumerate(registered):
-        tainted = []
-        plain = doc_plain(fn)
-        for p in fn.all_params:
-            if p == 'self':
-                continue
-            tainted.append(p)
-            if p not in plain:
-                tainted.append(cont(p))
-        tainted += ['self.x', 'self.z', 'self.x.*', 'self.z.*', 'self.*']
         nwrites += count_ir(fn.ir, ('write',))
-        emit(f'm{i}', fn.qual, tainted, coq_stmt(fn.ir, 'w'))
-        if fn.qual in KNOWN_FINDING_BODIES:
-            env = {t: frozenset([t]) for t in tainted}
-            acc = {'W': set(), 'A': set(), 'AC': set()}
-            run_ir(fn.ir, env, acc)
-            if acc['W']:
-                known_bad.append(names.pop())
+        emit(f'm{i}', fn.qual, tainted_of(fn, frozenset()), coq_stmt(fn.ir, 'w'))
+        if fn.qual in KNOWN_FINDING_BODIES and fn.Wreg and names and names[-1] == f'm{i}':
+            known_bad.append(names.pop())
+        # the `params` object a body returns: claimed sources, re-checked
+        code = coq_stmt(fn.ir, 'R1')
+        if code != 'SSkip':
+            emit(f'm{i}r', fn.qual + ' [returned params object is only ' + ','.join(sorted(fn.R1)) + ']',
+                 tainted_of(fn, frozenset(fn.R1)), code)
     # helpers: claimed summaries, re-checked: nothing outside the claimed sources is written / returned
     for i, fn in enumerate(helpers):
-        if fn.name in ('_register', '_class_wrapper'):
-            # decorator plumbing: the `inner` wrapper is modelled by hand (Model.wrapper_y) and validated
-            # dynamically with np.shares_memory; its pieces (_check_sized_array, _sort_array, ...) are analysed here
-            continue
-        allsrc = []
-        for p in fn.all_params:
-            allsrc += [p, cont(p)]
         if any(s == '%unknown' for s, _ in fn.W):
-            emit(f'h{i}w', fn.qual + ' [unrecognised statement]', allsrc, coq_stmt(fn.ir, 'w'))
+            emit(f'h{i}w', fn.qual + ' [unrecognised statement or write through an unknown (caller-owned) object]', tainted_of(fn, frozenset()), coq_stmt(fn.ir, 'w'))
             continue
-        wsrc = {s for s, _ in fn.W}
+        wsrc = frozenset(s for s, _ in fn.W)
         code = coq_stmt(fn.ir, 'w')
-        if code != 'SSkip' and count_ir(fn.ir, ('write', 'unknown')):
-            emit(f'h{i}w', fn.qual + ' [writes only ' + ','.join(sorted(wsrc)) + ']',
-                 [s for s in allsrc if s not in wsrc], code)
+        if code != 'SSkip' and count_ir(fn.ir, ('write', 'unknown', 'assertfresh')):
+            emit(f'h{i}w', fn.qual + ' [writes only ' + ','.join(sorted(wsrc)) + ']', tainted_of(fn, wsrc), code)
             nwrites += count_ir(fn.ir, ('write',))
-        for mode, claimed in (('A', fn.A), ('AC', fn.AC)):
+        for mode, claimed in (('A', fn.A), ('AC', fn.AC)) + ((('P1', fn.P1),) if fn.ret2 else ()):
             code = coq_stmt(fn.ir, mode)
             if code != 'SSkip' and count_ir(fn.ir, ('retwrite',)):
-                emit(f'h{i}{mode.lower()}', fn.qual + f' [returns{" containers of" if mode == "AC" else ""} only '
-                     + ','.join(sorted(claimed)) + ']', [s for s in allsrc if s not in claimed and s != '%unknown'], code)
+                emit(f'h{i}{mode.lower()}', fn.qual + f' [returns{" containers of" if mode == "AC" else (" as 2nd element" if mode == "P1" else "")} only '
+                     + ','.join(sorted(claimed)) + ']', tainted_of(fn, frozenset(claimed) | {'%unknown'}), code)
     lines.append('')
     lines.append('Definition bodies : list body := [' + '; '.join(names) + '].')
     lines.append('Definition known_bad : list body := [' + '; '.join(known_bad) + '].')
+    lines.append('(* the write-site bodies (registered methods, helpers): without the return-summary checks *)')
+    lines.append('Definition write_bodies : list body := [' + '; '.join(
+        n for n in names if n.endswith('w') or (n.startswith('m') and n[1:].isdigit())) + '].')
+    lines.append('(* attributes (obj.attr = ...) proven to hold only library-allocated buffers at every binding: *)')
+    lines.append('Definition fresh_attrs : list string := [' + '; '.join(q(a) for a in WORLD_INFO['fresh_attrs']) + '].')
+    lines.append('(* attributes that may hold a caller-owned buffer across calls: treated as caller-owned in every body *)')
+    lines.append('Definition caller_attrs : list string := [' + '; '.join(q(a) for a in WORLD_INFO['caller_attrs']) + '].')
     lines.append('(* hand-reviewed statements whose writes are waived (tools/gen_writes.py WAIVERS):')
     for w in WORLD_WAIVED:
         lines.append(f'   {w[0]}:{w[1]}: {w[2]}  -- {w[3]}')
